@@ -12,6 +12,7 @@ obligation `Run/C07_translated.lean`, and the translation is evaluated against t
 (`translated_vs_python`), which also compares the model's `finiteNumber` with the real `_finite_number`."""
 from __future__ import annotations
 
+import copy
 import itertools
 import json
 import random
@@ -319,7 +320,8 @@ def run_cases(run: lib.Run, audit: dict, scale: int = 1):
     verdicts = ["builtin", "raise"] + [["custom", ok, ch] for ok in (True, False, 0, None, "yes") for ch in (None, "custom_ch")]
     pol_ob = lambda obs: {"algorithm": "deny-overrides", "rules": [{"id": "r", "effect": "permit", "actions": ["read"], "resource": {"type": "doc"}, "obligations": obs}]}
     reqf = lambda ctx: {"sid": "u", "roles": [], "sattrs": {}, "action": "read", "rtype": "doc", "rid": "1", "rattrs": {}, "ctx": ctx}
-    for (ob, key) in singles[:: (3 if quick else 1)]:
+    # (the stride is coprime to the 6 `on` values that vary fastest in `singles`, so every `on` — also null and "" — goes through the engine)
+    for (ob, key) in singles[:: (5 if quick else 1)]:
         for v in CTX_VALUES[:: (3 if quick else 1)]:
             ctx = {} if v == "<absent>" or key is None else {key: v}
             cases.append((pol_ob([ob]), reqf(ctx), {"strict": False}))
@@ -351,6 +353,73 @@ def run_cases(run: lib.Run, audit: dict, scale: int = 1):
                                       "spec": "engine gate deviates from C07 (allowed, effect, reason, challenge)"})
 
 
+def cached_sequences(run: lib.Run) -> None:
+    """the gate is applied on EVERY evaluation, also when the raw decision comes out of the decision cache: one cached engine answers
+    the same request several times while what the checker sees changes in between — (a) a checker derived from the built-in one that
+    also consults state of its own (the documented extension pattern), sync and async; (b) the built-in checker with the context's values alternating.  Every answer is the one of an uncached engine at that moment."""
+    import asyncio
+    from rbacx.core.cache import DefaultInMemoryCache
+    from rbacx.core.engine import Guard
+    rows = [("require_mfa", None, {"mfa": True}, {"mfa": False}), ("require_level", {"min": 2}, {"auth_level": 3}, {"auth_level": 1}),
+            ("require_consent", {"key": "k"}, {"consent": {"k": True}}, {"consent": {}}), ("require_terms_accept", None, {"tos_accepted": True}, {}),
+            ("require_captcha", None, {"captcha_passed": True}, {"captcha_passed": 0}),
+            ("require_reauth", {"max_age": 60}, {"reauth_age_seconds": 5}, {"reauth_age_seconds": 600}), ("require_age_verified", None, {"age_verified": True}, {})]
+    revoked: set = set()
+
+    class Derived(BasicObligationChecker):
+        def check(self, decision, context):
+            ok, ch = super().check(decision, context)
+            if ok and "s-1" in revoked:
+                return False, "reauth"
+            return ok, ch
+
+    class AsyncDerived(Derived):
+        async def check(self, decision, context):  # type: ignore[override]
+            await asyncio.sleep(0)
+            return Derived.check(self, decision, context)
+    proj = lambda d: (d.allowed, d.effect, d.reason, d.challenge)  # noqa: E731
+    s_, a_, r_, _c = real.make_request({"sid": "u", "roles": [], "sattrs": {}, "action": "read", "rtype": "doc", "rid": "1", "rattrs": {}, "ctx": {}})
+    for typ, attrs, good, bad in rows:
+        ob = {"type": typ} if attrs is None else {"type": typ, "attrs": attrs}
+        pol = {"algorithm": "permit-overrides", "rules": [{"id": "r", "effect": "permit", "actions": ["read"], "resource": {"type": "doc"}, "obligations": [ob]}]}
+        # (b) mapping contexts alternating on one cached engine
+        for as_mapping in (False,):   # the request context is a `Context` (the documented API); a bare mapping is outside the quantifier
+            for order in ((good, bad, good, bad), (bad, good, bad, good)):
+                g = Guard(copy.deepcopy(pol), cache=DefaultInMemoryCache())
+                for i, ctx in enumerate(order):
+                    c_ = dict(ctx) if as_mapping else real.Context(attrs=dict(ctx))
+                    got = proj(g.evaluate_sync(s_, a_, r_, c_))
+                    want = proj(Guard(copy.deepcopy(pol)).evaluate_sync(s_, a_, r_, dict(ctx) if as_mapping else real.Context(attrs=dict(ctx))))
+                    run.evaluations += 1
+                    run.count("cached-sequence")
+                    if got != want:
+                        run.spec_failures.append({"part": "cached sequence", "policy": pol, "contexts_in_order": list(order), "context_as_plain_mapping": as_mapping,
+                                                  "evaluation": i + 1, "impl": list(got), "documented": list(want),
+                                                  "spec": "on a cached engine the obligation gate did not judge the request at hand (allowed, effect, reason, challenge of an uncached engine)"})
+                        return
+        # (a) a derived checker whose own verdict changes between two evaluations of the same request
+        for cls, use_async in ((Derived, False), (AsyncDerived, True)):
+            revoked.clear()
+            g = Guard(copy.deepcopy(pol), cache=DefaultInMemoryCache(), obligation_checker=cls())
+            ctx = real.Context(attrs=dict(good))
+            ev = (lambda: asyncio.run(g.evaluate_async(s_, a_, r_, ctx))) if use_async else (lambda: g.evaluate_sync(s_, a_, r_, ctx))
+            seq = []
+            for step in ("live", "revoked", "live again"):
+                if step == "revoked":
+                    revoked.add("s-1")
+                else:
+                    revoked.discard("s-1")
+                seq.append(proj(ev()))
+            run.evaluations += 1
+            run.count("cached-sequence:derived-checker")
+            want = [(True, "permit", "matched", None), (False, "deny", "obligation_failed", "reauth"), (True, "permit", "matched", None)]
+            if seq != want:
+                run.spec_failures.append({"part": "cached sequence", "policy": pol, "checker": cls.__name__ + " (built-in first, then its own revocation list)",
+                                          "impl": [list(x) for x in seq], "documented": [list(x) for x in want],
+                                          "spec": "on a cached engine a negative verdict of the checker was not honoured (or a withdrawn one stuck)"})
+                return
+
+
 def check(run: lib.Run, audit: dict) -> int:
     run.rule = ("exhaustive: 9 obligation types × every attrs shape (valid/invalid/absent/non-dict) × 6 `on` values × 25 context values (absent, null, "
                 "booleans, numbers incl. NaN/Inf/10^400/fractions, numeric and non-numeric strings, lists, objects) through the checker; all ordered "
@@ -379,6 +448,7 @@ def check(run: lib.Run, audit: dict) -> int:
     run.obligation("translated checker evaluates like the same statements run by CPython; the model's finiteNumber like the real _finite_number "
                    "(translator + Model/PyLib.lean + the external function vs CPython)", ok_py, detail_py)
     run_cases(run, audit, scale=run.boost * (1 if ok_tr else 2))
+    cached_sequences(run)
     violations = []
     if run.spec_failures:
         path = run.write_replay("spec", {"what": "C07 violated", "case": run.spec_failures[0], "count": len(run.spec_failures)})
